@@ -12,7 +12,8 @@ import (
 )
 
 type clientAnchors struct {
-	short     string // nclient4 | nclient6
+	register  *ssa.Function // unexported helper holding the registration, when send delegates it
+	short     string        // nclient4 | nclient6
 	pkg       *ssa.Package
 	decPkg    string // dhcpv4 | dhcpv6 import path
 	decName   string // FromBytes | MessageFromBytes
@@ -158,6 +159,29 @@ func resolveClientAnchors(c *Ctx, short string) *clientAnchors {
 				a.send = f
 			}
 		})
+	}
+	// the registration may sit in an unexported helper called from one place (`ch, done, ok := c.register(xid)`): send is
+	// then its caller, the function that makes the cancel closure
+	if a.send != nil && a.send.Parent() == nil && !token.IsExported(a.send.Name()) {
+		hasClosure := false
+		allInstrs(a.send, func(in ssa.Instruction) {
+			if _, ok := in.(*ssa.MakeClosure); ok {
+				hasClosure = true
+			}
+		})
+		if !hasClosure {
+			var callers []*ssa.Function
+			for _, f := range fs {
+				allInstrs(f, func(in ssa.Instruction) {
+					if cl, ok := in.(*ssa.Call); ok && cl.Call.StaticCallee() == a.send {
+						callers = append(callers, f)
+					}
+				})
+			}
+			if len(callers) == 1 {
+				a.register, a.send = a.send, callers[0]
+			}
+		}
 	}
 	if a.send == nil {
 		a.fail("send (function storing into Client.pending) not found")
